@@ -20,8 +20,8 @@ TARGETS = [
         (r'waitq::wait_defer\(timeout, spinlock_unlock, &splock\)', 'waitq_wait_defer(this)', 1),
         fields_rule(['m_ooo_resume'])],
         defers=dict(rettype='int'),
-        marks={'count': 1, 0: dict(name='WI', frame=['this', 'ret', 'cnt', 'eno', 'errno', 'ret_', 'OTH_SIG', 'N_WAIT', 'N_RESUME'],
-               effects={'SEM_try_subtract_c': ['this'], 'waitq_wait_defer': ['this', 'errno', 'N_WAIT'], 'spin_lock': ['this'], 'SEM_try_resume': ['N_RESUME'], 'atomic_load': ['this']}, pure=[])}),
+        marks={'count': 1, 0: dict(name='WI', frame=['this', 'ret', 'cnt', 'eno', 'errno', 'ret_', 'resumed', 'OTH_SIG', 'N_WAIT', 'N_RESUME', 'RESUME_ARG', 'RESUME_LOCKED', 'RESUME_AFTER_LAST_WAIT', 'WAS_RESUMED'],
+               effects={'SEM_try_subtract_c': ['this'], 'waitq_wait_defer': ['this', 'errno', 'N_WAIT', 'RESUME_AFTER_LAST_WAIT', 'WAS_RESUMED'], 'spin_lock': ['this'], 'SEM_try_resume': ['N_RESUME', 'RESUME_ARG', 'RESUME_LOCKED', 'RESUME_AFTER_LAST_WAIT'], 'atomic_load': ['this']}, pure=[])}),
     Target('try_resume', TC, r'void semaphore::try_resume\(uint64_t cnt\)',
         scoped=dict(items=[(r'ScopedLockHead h\(this\);', 'struct thread2 *h = SLH_ctor(this);', 'SLH_dtor(h);'),
                            (r'SCOPED_LOCK\(th->lock\);', 'scan_lock(th);', 'scan_unlock(th);')], rettype='void'),
